@@ -203,6 +203,43 @@ theorem resume_complete (hdr : Option (Frame α)) (bs : List (Frame α)) (i : Na
   congr 1
   rw [← List.flatten_append, ← List.map_append, List.take_append_drop]
 
+/-- the part of the stream a reader positioned at byte `c` sees: the blocks from the one that begins at `c` on
+    (`none` when `c` is not a block boundary) -/
+def suffixAt (pos : Nat) : List (Frame α) → Nat → Option (List (Frame α))
+  | [], c => if c = pos then some [] else none
+  | f :: rest, c => if c = pos then some (f :: rest) else suffixAt (pos + f.size) rest c
+
+theorem suffixAt_start (pos : Nat) (bs : List (Frame α)) : suffixAt pos bs pos = some bs := by
+  cases bs <;> simp [suffixAt]
+
+theorem suffixAt_drop (pos : Nat) (bs : List (Frame α)) (i : Nat) (hi : i ≤ bs.length) :
+    suffixAt pos bs (pos + ((bs.take i).map (·.size)).sum) = some (bs.drop i) := by
+  induction bs generalizing pos i with
+  | nil => simp [suffixAt]
+  | cons f rest ih =>
+    cases i with
+    | zero => simp [suffixAt]
+    | succ n =>
+      have hpos : 0 < f.size := by simp [Frame.size]; omega
+      simp only [List.take_succ_cons, List.map_cons, List.sum_cons, List.drop_succ_cons, suffixAt]
+      have hne : ¬ (pos + (f.size + ((rest.take n).map (·.size)).sum) = pos) := by omega
+      simp only [hne, if_false]
+      have := ih (pos + f.size) n (by simpa using hi)
+      rw [← this]; congr 1; omega
+
+/-- **stop anywhere, resume at the reported offset**: for every block `i` of every stream, every object of that block
+    is reported (by the offset rules read from the source) with the byte offset `c` at which the block begins; the
+    bytes of the stream from `c` on are the blocks `i, i+1, …`; and a new scan over them — first block a data block,
+    no header — returns exactly the objects of those blocks, the first object of block `i` first -/
+theorem resume_at_reported_offset (hdr : Option (Frame α)) (bs : List (Frame α)) (i : Nat) (hi : i < bs.length) :
+    let s := match hdr with | some h => h.size | none => 0
+    let c := s + ((bs.take i).map (·.size)).sum
+    ∃ tr, scanTrace R hdr bs = some tr ∧ (∀ x ∈ bs[i].objs, ∃ p, (x, c, p) ∈ tr) ∧
+      suffixAt s bs c = some (bs.drop i) ∧
+      (scanTrace R none (bs.drop i)).map (·.map (·.1)) = some ((bs.drop i).map (·.objs)).flatten := by
+  intro s c
+  refine ⟨_, scanTrace_eq hdr bs, reported_offset_is_block_start hdr bs i hi, suffixAt_drop s bs i (by omega), scan_objects none _⟩
+
 /-! ## non-vacuity -/
 example : scanTrace R (some ⟨10, 20, ([] : List Nat)⟩) [⟨5, 50, [1, 2]⟩, ⟨5, 10, []⟩, ⟨5, 30, [3]⟩] =
     some [(1, 34, 0), (2, 34, 0), (3, 112, 93)] := by decide
